@@ -767,7 +767,7 @@ fn oper_cfg(s: &mut S, c: &mut CfgSpec, prof: &mut Profile) {
             // masks that constrain the nick: what counts is the nick held at the time of OPER
             3 => Some(format!("n{}!*@*", s.pick(4))),
             4 => Some("n?!*@10.0.0.*".to_string()),
-            5 => Some(["N0!*@*", "op0!*@*", "*!~u1@*"][s.pick(3)].to_string()),
+            5 => Some(["N0!*@*", "op0!*@*", "*!~u1@*", "*!*@10.0.0.?", "*!*@10.0.0.1?", "*!*@10.0.0.??"][s.pick(6)].to_string()),
             _ => None,
         };
         let name = format!("op{}", i);
@@ -1088,7 +1088,7 @@ fn c16_build(cfg: &[u16]) -> Built {
     prof.oper_names.push(("op0".into(), "operpw0".into()));
     let npre = s.pick(4);
     for i in 0..npre {
-        let name = ["#pre0", "&pre1", "#pre2"][i % 3].to_string();
+        let name = ["#pre0", "&pre1", "#Pre2"][i % 3].to_string();
         let mut ch = ChanSpec { name: name.clone(), ..Default::default() };
         if s.chance(60) {
             ch.topic = Some(["Welcome", "a:b topic", "two words"][s.pick(3)].to_string());
@@ -1218,7 +1218,7 @@ fn c20g_build(cfg: &[u16]) -> Built {
     }
     let npre = 1 + s.pick(3);
     for i in 0..npre {
-        let name = ["#pre0", "&pre1", "#pre2"][i % 3].to_string();
+        let name = ["#pre0", "&pre1", "#Pre2"][i % 3].to_string();
         let mut ch = ChanSpec { name: name.clone(), ..Default::default() };
         if s.chance(60) {
             ch.topic = Some(["Welcome", "a:b topic", "two words", "\u{e9}\u{65e5}"][s.pick(4)].to_string());
